@@ -579,3 +579,14 @@ package lib
 // ("checks structure": the preconditions of halfPipe at the two spawn sites are not obligations here - they need
 // 'a network error has a non-empty text', which is not provable; the wiring of the relay is)
 //@   checks structure
+
+// C01 (destination port, station side): 443 for client library versions below 3 and for phantoms whose subnet does not
+// randomise ports; otherwise whatever the registered transport derives from the same library version, seed and
+// parameters (the transports' own routines are under contract in their packages).
+//@ func (rm *RegistrationManager) getPhantomDstPort(t pb.TransportType, params any, seed []byte, libVer uint, supportsRandom bool) (uint16, error)
+//@   requires rm != nil && rm.registeredDecoys != nil
+//@   requires @SAFETY: forall k pb.TransportType :: k in rm.registeredDecoys.transports ==> rm.registeredDecoys.transports[k] != nil
+//@   atcall GetDstPort before: assert @C01: libVer >= 3 && supportsRandom && arg0 == rm.registeredDecoys.transports[t] && arg1 == libVer && arg2 == seed && arg3 == params
+//@   ensures @C01: (t in rm.registeredDecoys.transports) && (libVer < 3 || !supportsRandom) ==> result0 == 443 && result1 == nil
+//@   ensures @C01: !(t in rm.registeredDecoys.transports) ==> result1 != nil
+//@   assigns nothing
